@@ -1,0 +1,5 @@
+//go:build !verif
+
+package tor
+
+func verifYield(point string) {}
